@@ -1654,7 +1654,7 @@ impl<'a, F: Elem> Prog<'a, F> {
                 "add" => (za.iter().zip(&pt.z).map(|(x, y)| x.add(*y)).collect(), ea.add(qe).add(trunc).add(Eb::new(self.ctx.sqn() * 2f64.powi(*budget as i32 - dmax as i32), self.ctx.hard_pt(*budget as i32 - dmax as i32)))),
                 "sub" => (za.iter().zip(&pt.z).map(|(x, y)| x.sub(*y)).collect(), ea.add(qe).add(trunc).add(Eb::new(self.ctx.sqn() * 2f64.powi(*budget as i32 - dmax as i32), self.ctx.hard_pt(*budget as i32 - dmax as i32)))),
                 _ => {
-                    let mask_a = if vec_mul && eff % p.base2k != 0 { Eb::new(self.ctx.u(da), self.ctx.hard_ct(-(da as i32))) } else { Eb::default() };
+                    let mask_a = if vec_mul && (eff % p.base2k != 0 || !compacted(&self.reg(a).ct)) { Eb::new(self.ctx.u(da), self.ctx.hard_ct(-(da as i32))) } else { Eb::default() };
                     let e = ea
                         .add(mask_a)
                         .scale(pt.mag)
@@ -1735,8 +1735,10 @@ impl<'a, F: Elem> Prog<'a, F> {
         let (ra, rb) = (self.reg(a), self.reg(b));
         let (da, ba, db, bb) = (ra.ct.log_delta(), ra.ct.log_budget(), rb.ct.log_delta(), rb.ct.log_budget());
         let (ma, mb) = (ra.mag(), rb.mag());
-        let mask_a = if (da + ba) % p.base2k != 0 { Eb::new(self.ctx.u(da), self.ctx.hard_ct(-(da as i32))) } else { Eb::default() };
-        let mask_b = if (db + bb) % p.base2k != 0 { Eb::new(self.ctx.u(db), self.ctx.hard_ct(-(db as i32))) } else { Eb::default() };
+        // same rule as the stand-alone product in do_binary: bits of an operand below its effective_k are masked off (floor) before
+        // the tensor product, and an operand with spare limbs is cut at its effective precision as well
+        let mask_a = if (da + ba) % p.base2k != 0 || !compacted(&ra.ct) { Eb::new(self.ctx.u(da), self.ctx.hard_ct(-(da as i32))) } else { Eb::default() };
+        let mask_b = if (db + bb) % p.base2k != 0 || !compacted(&rb.ct) { Eb::new(self.ctx.u(db), self.ctx.hard_ct(-(db as i32))) } else { Eb::default() };
         let tensor_k = ra.ct.max_k().as_usize().max(rb.ct.max_k().as_usize()).min(dmax);
         rb.e.add(mask_b)
             .scale(ma)
@@ -1818,7 +1820,7 @@ impl<'a, F: Elem> Prog<'a, F> {
                 let ptr = pt.as_ref().unwrap();
                 let qe = self.pt_err(ptr);
                 let ea = self.reg(a).e;
-                let mask_a = if kind.contains("vec") && (da + ba) % p.base2k != 0 { Eb::new(self.ctx.u(da), self.ctx.hard_ct(-(da as i32))) } else { Eb::default() };
+                let mask_a = if kind.contains("vec") && ((da + ba) % p.base2k != 0 || !compacted(&self.reg(a).ct)) { Eb::new(self.ctx.u(da), self.ctx.hard_ct(-(da as i32))) } else { Eb::default() };
                 let e = ea
                     .add(mask_a)
                     .scale(ptr.mag)
@@ -1880,6 +1882,37 @@ impl<'a, F: Elem> Prog<'a, F> {
             })
         };
         let extra = jo! {"b_kind" => kind, "pt_log_delta" => prec.log_delta, "pt_log_budget" => prec.log_budget, "empty_const" => empty_const, "dst_max_k" => cmax};
+        if self.trace && with_ct && matches!(expect, Expect::Ok { .. }) {
+            // diagnosis: the same computation through the two public steps mul_into + add/sub_assign
+            let za: Vec<Cx> = self.reg(a).z.clone();
+            let zb: Vec<Cx> = self.reg(b).z.clone();
+            let zc: Vec<Cx> = self.reg(c).z.clone();
+            let mut tmp = self.ctx.alloc_ct(cmax);
+            let mut d2 = clone_ct(&self.reg(c).ct);
+            let r2 = {
+                let Prog { ctx, regs, .. } = self;
+                let ctx = &mut **ctx;
+                let ca = &regs[a].as_ref().unwrap().ct;
+                let cb = &regs[b].as_ref().unwrap().ct;
+                guarded(|| {
+                    let s = ctx.scratch.borrow();
+                    let md = &ctx.module;
+                    let r = lib!(md.ckks_mul_into(&mut tmp, ca, cb, &ctx.tsk, s));
+                    let r2 = if sub { lib!(md.ckks_sub_assign(&mut d2, &tmp, s)) } else { lib!(md.ckks_add_assign(&mut d2, &tmp, s)) };
+                    (r.is_ok(), r2.is_ok())
+                })
+            };
+            let worst = |got: &[Cx], want: &[Cx]| got.iter().zip(want).map(|(g, w)| g.sub(*w).abs()).fold(0.0f64, f64::max);
+            let pz: Vec<Cx> = za.iter().zip(&zb).map(|(x, y)| x.mul(*y)).collect();
+            let wz: Vec<Cx> = zc.iter().zip(&pz).map(|(x, y)| if sub { x.sub(*y) } else { x.add(*y) }).collect();
+            let e_tmp = self.ctx.decrypt(&tmp).map(|g| worst(&g, &pz)).unwrap_or(-1.0);
+            let e_d2 = self.ctx.decrypt(&d2).map(|g| worst(&g, &wz)).unwrap_or(-1.0);
+            let e_dst = self.ctx.decrypt(&dst).map(|g| worst(&g, &wz)).unwrap_or(-1.0);
+            let acc_copy = clone_ct(&self.reg(c).ct);
+            let e_acc = self.ctx.decrypt(&acc_copy).map(|g| worst(&g, &zc)).unwrap_or(-1.0);
+            eprintln!("[diag] {:?} product alone err={e_tmp:.3e} (meta {},{}) | two-step result err={e_d2:.3e} (meta {},{}) | fused result err={e_dst:.3e} (meta {},{}) | acc err={e_acc:.3e} (meta {},{} size {})",
+                r2, tmp.log_delta(), tmp.log_budget(), d2.log_delta(), d2.log_budget(), dst.log_delta(), dst.log_budget(), self.reg(c).ct.log_delta(), self.reg(c).ct.log_budget(), self.reg(c).ct.size());
+        }
         let out = if matches!(expect, Expect::Ok { .. }) { Some(Reg { ct: dst, z: out_z, e: out_e }) } else { None };
         let (delta_diff, budget_disc, uncompacted) = if with_ct {
             let (db, bb) = (self.reg(b).ct.log_delta(), self.reg(b).ct.log_budget());
